@@ -549,7 +549,7 @@ class _FragmentCompiler:
                     reset_emitter._level += 1
                     reset_emitter.append(f"pass")
                     for (signal, mask) in lhs_masks.masks():
-                        if signal.reset_less:
+                        if signal.reset_less or not any(signal is other for other in reset_signals):
                             continue
                         if signal.shape().signed and (mask & 1 << (len(signal) - 1)):
                             mask |= -1 << len(signal)
